@@ -354,6 +354,44 @@ func runC18(r *simkit.Run, c Cfg) {
 				r.Probe("constructor-refused-unparsable-address")
 			}
 		}
+		// a request the provider sealed by its own means (another
+		// implementation of the same protocol, an older client): if the reader
+		// returns it, it returns the request that was sealed - every field,
+		// the sequence number too - and the same bytes read again give the
+		// same request
+		if tp.Chance(1, 3, "ownSeal") {
+			id := KeyedIdentity(KeyTypes[tp.Choose(len(KeyTypes), "ownSeal.key")], 1, "V1")
+			seqs := []uint64{0, 1, 1 << 53, 1<<63 - 1, 1 << 63, ^uint64(0), peer.TimestampSeq()}
+			in := &model.IngestRequest{
+				Multihash:  must(multihash.Sum(tp.Bytes(8, "ownSeal.content"), multihash.SHA2_256, -1)),
+				ProviderID: id.ID,
+				ContextID:  tp.Bytes(tp.Choose(65, "ownSeal.ctxlen"), "ownSeal.ctx"),
+				Metadata:   tp.Bytes(tp.Choose(40, "ownSeal.mdlen"), "ownSeal.md"),
+				Addrs:      []string{c09Addrs[tp.Choose(5, "ownSeal.addr")].s}[:tp.Choose(2, "ownSeal.naddr")],
+				Seq:        seqs[tp.Choose(len(seqs), "ownSeal.seq")],
+			}
+			data := must(must(record.Seal(in, id.Priv)).Marshal())
+			var outs [2]*model.IngestRequest
+			var errs [2]error
+			for k := range outs {
+				outs[k], errs[k] = model.ReadIngestRequest(append([]byte(nil), data...))
+			}
+			eq := func(a, b *model.IngestRequest) bool {
+				return a.ProviderID == b.ProviderID && bytes.Equal(a.Multihash, b.Multihash) && sameBytes(a.ContextID, b.ContextID) && sameBytes(a.Metadata, b.Metadata) && eqStrs(a.Addrs, b.Addrs) && a.Seq == b.Seq
+			}
+			switch {
+			case (errs[0] == nil) != (errs[1] == nil):
+				r.Violate("c18.accepted", "the same sealed ingest request read twice: first %v, then %v", errs[0], errs[1])
+			case errs[0] != nil:
+				r.Probe("own-seal-rejected")
+			case !eq(outs[0], in):
+				r.Violate("c18.accepted", "an ingest request the provider sealed itself (seq %d) was accepted with different content: provider %s seq %d ctx %x md %x addrs %q", in.Seq, outs[0].ProviderID, outs[0].Seq, outs[0].ContextID, outs[0].Metadata, outs[0].Addrs)
+			case !eq(outs[0], outs[1]):
+				r.Violate("c18.accepted", "the same sealed ingest request read twice gave two requests (seq %d, then %d)", outs[0].Seq, outs[1].Seq)
+			default:
+				r.Probe("own-seal-returned-as-sealed")
+			}
+		}
 		r.Go("client", func(t *simkit.Task) {
 			for i := 0; i < nreq && !r.Failed(); i++ {
 				t.Yield("op")
